@@ -411,6 +411,69 @@ def api_cases(rng, tier):
             box["checked"] = True
             return None
         cases.append(Case(line, impl, oracle, "gradapi/fam%d/d%d/%s" % (fam, d, "ttm" if ttm else "tt"), True, desc=line, gauge_ok=False))
+    # operands produced by the FACTORIES (ones / zeros / eye / rank-one / kron of those), with repeated mode sizes: every core position is its own
+    # leaf — watching one core must not track another position, and each slot is the derivative with respect to that position alone
+    for fi in range(8 if tier == "quick" else 40):
+        N = [[3, 3, 2], [2, 2, 2, 2], [3, 2, 3], [2, 2]][fi % 4]
+        d = len(N)
+        maker = ["ones", "eye", "zeros", "ones-kron"][(fi // 4 + fi) % 4]
+        k = rng.randrange(d)
+        y0 = rand_tt(rng, N, rand_ranks(rng, d, 2), tn.float64, M=(N if maker == "eye" else None))
+        line = J("gradapi", d, 1, "w", 1, k, "all")
+        box = {}
+
+        def mk(maker=maker, N=N):
+            if maker == "ones":
+                return torchtt.ones(N)
+            if maker == "zeros":
+                return torchtt.zeros(N)
+            if maker == "eye":
+                return torchtt.eye(N)
+            return torchtt.kron(torchtt.ones(N[:1]), torchtt.ones(N[1:]))
+
+        def impl(mk=mk, y0=y0, k=k, box=box, maker=maker):
+            x = mk()
+            y = torchtt.TT([c.clone() for c in y0.cores])
+            torchtt.grad.watch(y)
+            box["cores0"] = [c.detach().clone() for c in x.cores]
+            torchtt.grad.watch(x, [k])
+            box["flags"] = [bool(c.requires_grad) for c in x.cores]
+            val = (x * y).sum() + 2 * (x * x).sum()
+            g = torchtt.grad.grad(val, x)
+            box["g"] = g
+
+            def owner(t):
+                for kk, c in enumerate(x.cores):
+                    if c.grad is t:
+                        return str(kk)
+                return "?"
+            return "gs %d %s" % (len(g), " ".join("-" if t is None else owner(t) for t in g))
+
+        def oracle(box=box, y0=y0, k=k, d=d, maker=maker):
+            if "g" not in box:
+                return "watch / grad on a factory-built operand raised"
+            g = box["g"]
+            if box["flags"] != [i == k for i in range(d)]:
+                return "watch(x, [%d]) on a %s operand tracks the cores %s" % (k, maker, [i for i, f in enumerate(box["flags"]) if f])
+            ttm = maker == "eye"
+            cs = [c.clone() for c in box["cores0"]]
+            cs[k].requires_grad_(True)
+            xd = dense_of_cores(cs, ttm)
+            yd = dense_of_cores([c.clone() for c in y0.cores], ttm)
+            v = (xd * yd).sum() + 2 * (xd * xd).sum()
+            v.backward()
+            for slot in range(d):
+                if slot != k:
+                    if g[slot] is not None:
+                        return "slot %d (unwatched) is not None" % slot
+                    continue
+                if g[slot] is None:
+                    return "slot %d (watched) is None" % slot
+                e = exact_equal(g[slot], cs[k].grad)
+                if e:
+                    return "slot %d is not the derivative with respect to core %d alone: %s" % (slot, k, e)
+            return None
+        cases.append(Case(line, impl, oracle, "gradapi/factory-%s/d%d" % (maker, d), True, desc="%s N=%s watch [%d]" % (maker, N, k), gauge_ok=False))
     return cases
 
 
